@@ -220,3 +220,30 @@ def linebreak_facts(repo):
         goal = z3.BoolVal(False)
     out.append(Obligation('linebreak:crlf-is-one-break', 'regex', [], z3.simplify(goal), dict(info, witness='\r\n')))
     return out
+
+
+SHIPPED_MODELS = {'amr': 'penman.models.amr'}
+
+
+def model_facts(repo):
+    """C13 / C03: role inversion is an involution only if a model never defines a role together with
+    its own inverse spelling (the recorded finding N7 is about tables a user writes).  For the models
+    penman ships this is a fact about their role tables, read from the live source: no string r such
+    that both r and r + '-of' match the table (the table's keys are the alternatives of one anchored
+    alternation, as Model.__init__ compiles them)."""
+    msrc = repo.module('penman.model').text
+    if "'|'.join" not in msrc:
+        raise ValueError('Model.__init__ no longer joins the role table with "|" into one pattern')
+    out = []
+    for short, modname in SHIPPED_MODELS.items():
+        mod = repo.module(modname)
+        table = mod.consts.get('roles')
+        if table is None:
+            raise ValueError('%s has no literal `roles` table' % modname)
+        keys = list(ast.literal_eval(table))
+        lang = z3.Union(*[rx.from_python(k) for k in keys]) if len(keys) > 1 else rx.from_python(keys[0])
+        r = z3.String('r')
+        out.append(Obligation('model:%s.no-role-with-its-inverse' % short, 'regex', [],
+                              z3.Not(z3.And(z3.InRe(r, lang), z3.InRe(z3.Concat(r, z3.StringVal('-of')), lang))),
+                              {'model': short, 'roles': len(keys)}))
+    return out
